@@ -1,3 +1,4 @@
+import GramModel.Lemmas.ArmsTie
 import GramModel.Lemmas.DeBruijn
 import GramModel.Lemmas.Named
 
@@ -540,3 +541,47 @@ example :
 example :
     (NTm.subst 0 (.var 1) (.lam 1 .int (.var 0))).toDB [1] = some (.lam 1 false .int (.var 1 0)) ∧
     openT (.lam 1 false .int (.var 0 1)) 0 (.var 1 0) 0 = .lam 1 false .int (.var 1 1) := by decide
+
+/-! ## The model functions are what `de_bruijn.rs` / `term.rs` say, arm by arm (tables regenerated on every run)
+
+`Generated/Arms.lean` is rewritten from the Rust sources by `extract/arms.py` on every run: for every match arm of
+`signed_shift`, `open` and `free_variables` — one row per Rust variant, nine rows for the nine binary operators —
+which children are traversed, where they are put back, and how cutoff / index / shift amount change on the way
+down.  `gshift`, `gopen`, `gfv` (`Lemmas/ArmsTie.lean`) interpret the tables; the statements below say the
+interpretation IS the model function the other theorems of this file are about.  A changed Rust arm changes its
+row and these theorems stop checking. -/
+
+/-- `sshift` is the interpretation of the `signed_shift` table. -/
+def C11_shift_arms_tie_stmt : Prop :=
+  ∀ (t : Tm) (c : Nat) (amt : Int),
+    gshift Generated.shiftArms Generated.shiftLeaves c amt t = sshift c amt t
+theorem C11_shift_arms_tie : C11_shift_arms_tie_stmt := gshift_eq
+
+/-- `openT` is the interpretation of the `open` table. -/
+def C11_open_arms_tie_stmt : Prop :=
+  ∀ (t : Tm) (i : Nat) (u : Tm) (s : Nat),
+    gopen Generated.openArms Generated.openLeaves t i u s = some (openT t i u s)
+theorem C11_open_arms_tie : C11_open_arms_tie_stmt := gopen_eq
+
+/-- `freeVars` is the interpretation of the `free_variables` table. -/
+def C11_fv_arms_tie_stmt : Prop :=
+  ∀ (t : Tm) (c : Nat), gfv Generated.fvArms Generated.fvLeaves t c = some (freeVars t c)
+theorem C11_fv_arms_tie : C11_fv_arms_tie_stmt := gfv_eq
+
+/-- Every congruence row is well formed (rebuilds the variant it matched; traverses exactly that variant's
+children and puts each back in its own place), and the `Variable` / `Unifier` arms — the only arms with
+arithmetic on indices — are textually the ones the model was written from (CRC-32 of their comment-free text). -/
+def C11_arms_wellformed_stmt : Prop :=
+  (∀ a ∈ Generated.shiftArms ++ Generated.openArms ++ Generated.fvArms, a.wf = true) ∧
+  Generated.shiftVariableArm = 1290892399 ∧ Generated.openVariableArm = 684542426 ∧
+  Generated.fvVariableArm = 158030752 ∧
+  Generated.shiftUnifierArm = 2823872755 ∧ Generated.openUnifierArm = 2957908884 ∧
+  Generated.fvUnifierArm = 4058066136
+theorem C11_arms_wellformed : C11_arms_wellformed_stmt := by
+  unfold C11_arms_wellformed_stmt; decide
+
+-- non-vacuity: the interpreted table shifts under a binder and inside a two-definition group
+example : gshift Generated.shiftArms Generated.shiftLeaves 0 2
+    (.lam 1 false (.var 2 0) (.letg (.cons 3 .int (.var 2 3) (.cons 4 .int (.var 3 1) .nil)) (.bin .quot (.var 2 3) (.var 4 0))))
+    = some (.lam 1 false (.var 2 2) (.letg (.cons 3 .int (.var 2 5) (.cons 4 .int (.var 3 1) .nil)) (.bin .quot (.var 2 5) (.var 4 0)))) := by
+  decide
